@@ -6,6 +6,8 @@ R16a every time argument handed to Tag.set_value / set_value_and_unit / simulate
      seeded at Engine.tick's `tick_time` parameter and propagated through parameters, attributes and
      returns). COUNTER (tick numbers), MONO, WALL (time.time()), CONST and UNKNOWN are violations;
      *args/**kwargs pass-through is accepted only inside an override of the same sink method.
+R16a (cont.) a time argument that is a local or parameter of a generator bound before a `yield` and read after it is
+     stale (it holds the time of an earlier tick) and is reported, whatever its kind.
 R16b Tag's sink methods store their time parameter in self.tick_time on the changed path and
      as_readonly / to_model_tag copy it unmodified.
 R16c the first-tick restamp in Engine.tick covers every tag collection the engine reports.
@@ -86,6 +88,12 @@ def run(ctx) -> None:
                     ctx.ok("R16a", inst, {"rule": "R16a", "site": inst, "kind": "forwarded inside override"}, trivial=True)
                     continue
                 ctx.fail("R16a", f, c, inst, "time argument missing or not identifiable")
+                continue
+            stale = _stale_across_yield(f, c, targ)
+            if stale is not None:
+                ctx.fail("R16a", f, c, inst, f"the time argument `{norm(targ)}` is a {stale[0]} of a generator that is read after a `yield` "
+                         f"(line {stale[1]}): it still holds the time of the tick in which it was bound, while the change is made in a "
+                         "later tick - the reported time lies before times already reported")
                 continue
             kinds = ka.expr_kind(targ, f)
             own_param = isinstance(targ, ast.Name) and any(p.arg == targ.id for p in f.params()) and not any(
@@ -224,3 +232,49 @@ def run(ctx) -> None:
         else:
             ctx.fail("R16c", eng, eng.node, inst, f"tags of {coll} are reported (Engine._iter_all_tags) but keep their "
                      "construction-time stamp (time.time() in Tag.__init__, before engine start) until first changed")
+
+
+def _stale_across_yield(f, call, targ):
+    """A local or parameter of a generator that is bound before a yield and used as the time argument after it holds the time
+    of an earlier tick. Returns (what, line of the yield) or None."""
+    if not isinstance(targ, ast.Name):
+        return None
+    if not any(isinstance(n, (ast.Yield, ast.YieldFrom)) for n in walk_no_nested(f.node)):
+        return None
+    g = cfg_of(f)
+    sinks = g.node_containing(call)
+    if not sinks:
+        return None
+    is_param = any(a.arg == targ.id for a in f.node.args.posonlyargs + f.node.args.args + f.node.args.kwonlyargs)
+
+    def defines(n):
+        if n.kind not in ("stmt", "for", "with"):
+            return False
+        a = n.ast
+        tg = []
+        if isinstance(a, ast.Assign):
+            tg = a.targets
+        elif isinstance(a, (ast.AnnAssign, ast.AugAssign)):
+            tg = [a.target]
+        elif isinstance(a, (ast.For, ast.AsyncFor)):
+            tg = [a.target]
+        return any(isinstance(x, ast.Name) and x.id == targ.id for t in tg for x in ast.walk(t))
+    defs = [n for n in g.nodes if defines(n)]
+    if not defs and not is_param:
+        return None
+    starts = [n.id for n in defs] + ([g.entry.id] if is_param else [])
+
+    def is_yield(n):
+        return n.kind == "stmt" and any(isinstance(x, (ast.Yield, ast.YieldFrom)) for x in ast.walk(n.ast))
+    for sid in starts:
+        first = [d for d, l in g.succ[sid] if l != "exc"]
+        reach = g.search(first, lambda n: False, collect=True, blocked=lambda n: defines(n), follow_exc=False)
+        for yid in reach:
+            yn = g.nodes[yid]
+            if not is_yield(yn) or any(yn.id == sk.id for sk in sinks):
+                continue
+            after = g.search([d for d, l in g.succ[yid] if l != "exc"], lambda n: any(n.id == sk.id for sk in sinks),
+                             blocked=lambda n: defines(n), follow_exc=False)
+            if after is not None:
+                return ("parameter" if sid == g.entry.id else "local", yn.lineno)
+    return None
